@@ -122,7 +122,15 @@ def handle : Handler := fun op j =>
         | [] => throw "switchesOK fails but the locator finds nothing"
         | v :: _ => pure (res (Json.mkObj [("path", ofStrList v.1), ("reason", Json.str v.2),
                       ("count", Json.num (JsonNumber.fromNat vs.size)),
+                      ("reasons", ofStrList (vs.toList.map (·.2)).eraseDups),
                       ("all", Json.arr ((vs.toList.take 40).toArray.map violJson))])))
+  | "switches.table" => some (do
+      -- the verified predicate under several (cfg, lang) rows: `"rows": [{"cfg": [4 ints], "lang": …}, …]`
+      let (_, p) ← parseProgramObj j
+      let rows ← getArr j "rows"
+      let out ← rows.toList.mapM fun row => do
+        pure (Json.bool (switchesOK (← parseCfg row) (← getStr row "lang") p))
+      pure (res (Json.arr out.toArray)))
   | "switches.draw_bool" => some (do
       pure (res (Json.bool (drawBool (← parseDraw j "r") (← parseProb j "p")))))
   | "switches.type_param_flags" => some (do
